@@ -40,6 +40,7 @@ theorem step_sorted (w : World) (e : Event) (h : Sorted w.d.log) : Sorted (stepE
     | install q f c => exact plan _ _ _
     | timeoutNow => exact plan _ _ _
     | snapshot f c => exact plan _ _ _
+    | campaign rs => exact plan _ _ _
 
 theorem run_sorted (w : World) (es : List Event) (h : Sorted w.d.log) : Sorted (runWorld w es).d.log := by
   induction es generalizing w with
